@@ -10,7 +10,8 @@ the broker does for the fetched range; both isolation levels.
 
 Families
   L  the real AIOKafkaConsumer (vf.scen_consumer, "combos" mode) on the default schedule: one run per (log, compaction
-     variant, isolation level) walks through every (start offset, cut plan): seek, poll, position.
+     variant, isolation level) walks through every (start offset, cut plan): seek, poll (getmany(); on the smaller logs
+     also getone() and the pure-Python record readers), position.
   E  schedule exploration (r<=1, p<=1, response cut as an explorer choice x<=1) on the logs with two or more producers.
   D  the same inputs fed directly to aiokafka.consumer.fetcher.PartitionRecords, compiled and pure-Python record readers,
      the index exactly as the broker computes it and the over-approximation a real broker may return (entries of
@@ -75,7 +76,7 @@ def log_name(entries, removed=(), emptied=()):
     return ".".join(one(i, e) for i, e in enumerate(entries))
 
 
-def l_params(entries, removed, emptied, isolation, codec=None):
+def l_params(entries, removed, emptied, isolation, codec=None, call=None):
     tl = conslogs.TxnLog(entries, 0, removed, emptied)
     combos = combos_for(tl, isolation == "read_committed")
     p = {"logs": {"0": {"txn": [list(e) for e in entries], "removed": list(removed), "emptied": list(emptied)}},
@@ -83,6 +84,9 @@ def l_params(entries, removed, emptied, isolation, codec=None):
          "fetch_cap": 12 * len(combos) + 60, "brokers": 1}
     if codec:
         p["codec"] = codec
+    if call:
+        p["combo_call"] = call
+        p["fetch_cap"] = 2 * p["fetch_cap"]
     return p
 
 
@@ -241,6 +245,10 @@ def run(ctx):
                     jobs.append((name, l_params(entries, removed, emptied, isolation)))
                     if len(entries) <= (3 if quick else 4) and not removed and not emptied:
                         jobs.append((name + "/py", l_params(entries, removed, emptied, isolation, codec="py")))
+                    if len(entries) <= (3 if quick else 5):
+                        # same walk polled with getone(): one record per call, position must still pass trailing markers /
+                        # aborted / emptied batches of a response
+                        jobs.append((name + "/getone", l_params(entries, removed, emptied, isolation, call="getone")))
         ctx.log(f"L: {len(jobs)} consumer runs")
         size = max(1, min(40, len(jobs) // (ctx.jobs * 8) or 1))
         shards = [jobs[i:i + size] for i in range(0, len(jobs), size)]
